@@ -51,6 +51,20 @@ func (r *cache) setNodeInfo(shardID uint64, replicaID uint64) bool {
 	return !ok
 }
 
+// removeNode removes everything cached for the specified node. It is invoked
+// when the data of the node is removed from the db, values saved for the node
+// afterwards must not be compared with what was cached for its previous life.
+func (r *cache) removeNode(shardID uint64, replicaID uint64) {
+	key := raftio.NodeInfo{ShardID: shardID, ReplicaID: replicaID}
+	r.mu.Lock()
+	defer r.mu.Unlock()
+	delete(r.nodeInfo, key)
+	delete(r.ps, key)
+	delete(r.lastEntryBatch, key)
+	delete(r.maxIndex, key)
+	delete(r.snapshotIndex, key)
+}
+
 func (r *cache) setState(shardID uint64, replicaID uint64, st pb.State) bool {
 	key := raftio.NodeInfo{ShardID: shardID, ReplicaID: replicaID}
 	r.mu.Lock()
